@@ -124,9 +124,10 @@ func verify(c *core.Ctx, e *signedexchange.Exchange, t time.Time, n *certNet) ve
 
 func readFile(c *core.Ctx, data []byte, plan core.ReaderPlan) (*signedexchange.Exchange, error, *core.PanicInfo, uint64) {
 	sr := c.NewReader("cdn", data, plan)
+	src, _ := c.WrapSource("cdn", sr)
 	var e *signedexchange.Exchange
 	var err error
-	pi, alloc := c.GuardAlloc("ReadExchange", func() { e, err = signedexchange.ReadExchange(sr) })
+	pi, alloc := c.GuardAlloc("ReadExchange", func() { e, err = signedexchange.ReadExchange(src) })
 	return e, err, pi, alloc
 }
 
@@ -315,6 +316,11 @@ func TestClean(t *testing.T) {
 						if !bytes.Equal(v.payload, l.Payload) {
 							c.Violation("verify-payload", "Exchange.Verify", "returned payload differs from the original (%d vs %d bytes)", len(v.payload), len(l.Payload))
 						}
+					}
+					// the returned payload is the caller's: it consumes (here: overwrites) it at once,
+					// which must not reach into the exchange it verifies again at the next instant
+					for j := range v.payload {
+						v.payload[j] ^= 0x5a
 					}
 				}
 				c.SimTime(1)
@@ -866,7 +872,7 @@ func tamper(c *core.Ctx, w *world, l *gen.LSXG) (*signedexchange.Exchange, strin
 			e.ResponseHeaders[k] = []string{e.ResponseHeaders[k][0] + "x"}
 		case "header-add":
 			// (names include the one header the format carries outside the signed map)
-			if nh := c.PickStr("field.newhdr", "X-Injected", "Content-Security-Policy", "Link", "Signature", "signature", "SIGNATURE", "Digest2", "Content-Encoding2"); c.Bool("field.newhdrDirect") {
+			if nh := c.PickDict("field.newhdr", []string{"X-Injected", "Content-Security-Policy", "Link", "Signature", "signature", "SIGNATURE", "Digest2", "Content-Encoding2"}, core.HeaderNameRe); c.Bool("field.newhdrDirect") {
 				e.ResponseHeaders[nh] = append(e.ResponseHeaders[nh], "evil")
 			} else {
 				e.ResponseHeaders.Add(nh, "evil")
@@ -888,7 +894,7 @@ func tamper(c *core.Ctx, w *world, l *gen.LSXG) (*signedexchange.Exchange, strin
 			if e.RequestHeaders == nil {
 				e.RequestHeaders = http.Header{}
 			}
-			e.RequestHeaders.Add(c.PickStr("field.newreqhdr", "X-Req-Injected", "Signature", "signature", "Accept"), "1")
+			e.RequestHeaders.Add(c.PickDict("field.newreqhdr", []string{"X-Req-Injected", "Signature", "signature", "Accept"}, core.HeaderNameRe), "1")
 		case "payload-bit":
 			if len(e.Payload) == 0 {
 				e.Payload = []byte{0}
